@@ -56,6 +56,14 @@ func (eng *Engine) report(prop, tier string, pc *PropConfig, obls []*Obligation,
 	discharged, counted, vacuity := 0, 0, 0
 	solverTime, maxTime := 0.0, 0.0
 	structural := 0
+	// exit canaries: a function is vacuous when none of its returns is reachable; a
+	// single unreachable return is dead code (an error path the contracts exclude), noted only
+	reachable := map[string]bool{}
+	for _, o := range obls {
+		if o.Expect == "sat" && strings.Contains(o.Name, "/vacuity/return-reachable#") && !o.failed() {
+			reachable[o.Fn] = true
+		}
+	}
 	for _, o := range obls {
 		solverTime += o.Time
 		if o.Time > maxTime {
@@ -64,6 +72,10 @@ func (eng *Engine) report(prop, tier string, pc *PropConfig, obls []*Obligation,
 		if o.Expect == "sat" {
 			vacuity++
 			if o.failed() {
+				if strings.Contains(o.Name, "/vacuity/return-reachable#") && reachable[o.Fn] {
+					eng.deadReturns = append(eng.deadReturns, o.Name)
+					continue
+				}
 				violations = append(violations, o)
 			}
 			continue
@@ -265,6 +277,7 @@ func (eng *Engine) writeEvidence(prop, tier string, pc *PropConfig, obls []*Obli
 			"max_obligation_time_s":    round3(maxTime),
 			"vacuity_guards":           vacuity,
 			"structural_obligations":   structural,
+			"unreachable_returns":      append([]string{}, eng.deadReturns...),
 			"unknown_callees":          unk,
 			"not_decided":              pc.NotDecided,
 			"bounded":                  pc.Bounded,
